@@ -112,6 +112,17 @@ class Down:
 DIVERGE = object()
 
 
+class NoValue:
+    """result of a callback that cannot return under its guard (the guard is infeasible or every path panics):
+    merges as 'no value'; asking it for a boolean gives False"""
+    t = z3.BoolVal(False)
+    tag = z3.BitVecVal(0, 8)
+
+    def ite(self, c, other):
+        return other
+
+
+
 def T(x):
     return z3.BoolVal(True) if x else z3.BoolVal(False)
 
@@ -206,6 +217,7 @@ class Engine:
         self.summaries = {}
         self.overrides = {}             # id(body) -> python fn(engine, args, pc) -> value
         self.stubs = []                 # (regex, handler(engine, callee, args, dest_ty, st)) tried before everything
+        self.inline_all = False         # translator validation: constant arguments, so executing bodies beats summarising them
         self.always_inline = set()      # bodies that contain nondeterministic stubs: a summary would share their choices
         self.stub_log = []              # (callee, returned fresh value)
         self.watch = set()              # body names whose inlined results are recorded in watch_log
@@ -554,6 +566,15 @@ class Engine:
         k = p[0]
         if k == 'local':
             if p[1] not in st.env:
+                # zero-sized locals (capture-less closures, fn items, unit) are never assigned in MIR
+                t = body.locals.get(p[1], '')
+                mm = re.match(r'^\{closure@([^}]*)\}$', t)
+                if mm:
+                    return Clo(mm.group(1), [])
+                if t == '()':
+                    return UNITV
+                if t.startswith('fn(') or t.startswith('for<'):
+                    return Opq('fn ' + (re.search(r'\{(.+)\}$', t).group(1) if re.search(r'\{(.+)\}$', t) else t))
                 raise Unsupported('read of unset local %s in %s' % (p[1], body.name))
             return st.env[p[1]]
         if k == 'deref':
@@ -839,6 +860,8 @@ class Engine:
         if op == 'Cmp':
             lt = (x < y) if signed else z3.ULT(x, y)
             return self.ordering(lt, x == y)
+        if op in ('Shl', 'Shr', 'ShlUnchecked', 'ShrUnchecked') and y.size() != w:
+            y = z3.ZeroExt(w - y.size(), y) if y.size() < w else z3.Extract(w - 1, 0, y)
         if op in ('Div', 'Rem', 'Shl', 'Shr', 'ShlUnchecked', 'ShrUnchecked'):
             f = {'Div': lambda: (x / y) if signed else z3.UDiv(x, y), 'Rem': lambda: z3.SRem(x, y) if signed else z3.URem(x, y),
                  'Shl': lambda: x << y, 'ShlUnchecked': lambda: x << y,
@@ -1085,19 +1108,21 @@ class Engine:
     def call_callable(self, f, args, st, where):
         """closure value or function item used as a callback by a std model"""
         if isinstance(f, Clo):
-            return self.call_closure(f, args, st, where)
+            r = self.call_closure(f, args, st, where)
+            return NoValue() if r is DIVERGE else r
         if isinstance(f, Opq) and f.what.startswith('fn '):
             path = f.what[3:].strip()
             b = self.resolve(path)
             if b is not None:
-                return self.call_body(b, list(args), st, where)
+                r = self.call_body(b, list(args), st, where)
+                return NoValue() if r is DIVERGE else r
             # tuple-struct / enum-variant constructors used as functions
             raise Unsupported('function item ' + path)
         raise Unsupported('callable %r' % (f,))
 
     def needs_inline(self, target, args):
         mir.analyse_cfg(target)
-        if target.has_loops or target.name in self.always_inline:
+        if target.has_loops or self.inline_all or target.name in self.always_inline:
             return True
         for a in args:
             if isinstance(a, (Ref, It)):
